@@ -153,3 +153,28 @@ Theorem C16_monitor_restart_progress_sound : forall c acts,
   forall k, WorldMon.last_state k = WorldC.project (run c acts) -> WorldMon.restart_progress k = true.
 Proof. exact WorldRest.restart_progress_model. Qed.
 Print Assumptions C16_monitor_restart_progress_sound.
+
+(* At rest no restart is left enabled: in every quiescent state reached without teardown (raises of maxTrialCount included) the
+   stored experiment does not satisfy the restart test -- a raise that enables a restart is taken by the experiment reconcile
+   (which withdraws the verdict and writes the status), so a state in which the restart is still enabled is not at rest. *)
+Theorem C16_no_restart_left_at_rest : forall c acts e,
+  valid_cfg c -> no_teardown acts -> quiescent (run c acts) -> w_exp (run c acts) = Some e ->
+  restart_enabled_e c e = false.
+Proof. exact WorldRest.no_restart_left_at_rest. Qed.
+Print Assumptions C16_no_restart_left_at_rest.
+
+(* ... and the at-rest clause restart_taken of the monitor holds on the model's own projections. *)
+Theorem C16_monitor_restart_taken_sound : forall c acts,
+  valid_cfg c -> no_teardown acts -> quiescent (run c acts) ->
+  forall k, WorldC.k_cfg k = c -> WorldMon.last_state k = WorldC.project (run c acts) -> WorldMon.restart_taken k = true.
+Proof. exact WorldRest.restart_taken_model. Qed.
+Print Assumptions C16_monitor_restart_taken_sound.
+
+(* Non-vacuity: the repaired F18 history contains a raise of maxTrialCount (the one that restarts the experiment there) and ends
+   quiescent with its experiment stored. *)
+Theorem C16_no_restart_left_premises_satisfiable :
+  valid_cfg F18.f18_cfg /\ no_teardown F18.f18_acts /\ quiescent (run F18.f18_cfg F18.f18_acts) /\
+  existsb (fun a => match a with UserRaiseMax _ => true | _ => false end) F18.f18_acts = true /\
+  exists e, w_exp (run F18.f18_cfg F18.f18_acts) = Some e /\ e_max e = Some 2.
+Proof. exact WorldRest.restart_taken_premises_hold. Qed.
+Print Assumptions C16_no_restart_left_premises_satisfiable.
